@@ -33,6 +33,8 @@ func init() {
 				// a converter supplied through a generator, and a run-once provider
 				FuncSpec{In: []Label{tl[1]}, Out: []Label{tl[0]}, InForm: FormPositional, OutForm: FormStruct, Gen: true},
 				FuncSpec{In: nil, Out: []Label{tl[2]}, InForm: FormPositional, OutForm: FormStruct, Once: true},
+				// a provider publishing a *named* value
+				FuncSpec{In: nil, Out: []Label{{"a", 0, ""}}, InForm: FormPositional, OutForm: FormStruct},
 			)
 		}
 		maxConvs, maxParams, maxIn := 2, 1, 1
